@@ -13,7 +13,7 @@ META = {
             'docstrings / __future__ imports, to a constant strictly equal (type, value, sign) to each literal it replaces, visible from '
             'every use, never from a forbidden position. non-trivial = at least one literal was hoisted; distinct by (program, options)',
     'assumptions': [],
-    'modelled_not_verified': ['HoistLiterals visitor (which nodes it reaches) is not modelled; placement (common path, insert) is modelled in Lean'],
+    'modelled_not_verified': ['HoistLiterals: the collecting traversal (T06.4) and the placement (common path, insert) are modelled in Lean and tied by correspondence; the replacement itself (rename() over the references) and should_rename are covered by the oracle'],
 }
 
 LIT = ["'a repeated literal string'", "b'repeated bytes literal'", 'None', 'True', 'False', '1', '0', '1.0', '0.0', "''", "'x'"]
@@ -53,6 +53,9 @@ TEMPLATES = [
     'class OuterClass:\n    class MiddleClass:\n        class InnerClass:\n            values_list = [{L} for comp_item in ({L}, {L})]\n            function_value = lambda self: ({L}, {L})\n',
     'class OuterClass:\n    def method_one(self):\n        class LocalClass:\n            attribute_one = {L}\n            def method_two(self):\n                return {L}, {L}, {L}\n        return LocalClass\n    def method_three(self):\n        return 0\n',
     'class OuterClass:\n    class InnerClass:\n        attribute_one = {L}\n        attribute_two = ({L}, {L})\n    class SiblingClass:\n        def method_one(self, first_param={L}):\n            return {L}, first_param\n',
+    # __slots__ among several targets of one assignment; __slots__ in a function of the class (an ordinary local there)
+    'class SomeClass:\n    _fields = __slots__ = ({L}, {L})\n    def method_one(self):\n        return {L}, {L}, {L}\n',
+    'class SomeClass:\n    first_alias = second_alias = __slots__ = [{L}, {L}, {L}]\n    other_value = {L}\n    def method_one(self):\n        __slots__ = {L}\n        return {L}, __slots__\n',
     'class OuterClass:\n    class InnerClass:\n        async def method_one(self):\n            return [{L} async for comp_item in self.items()], {L}, {L}\n        def method_two(self):\n            return {L}\n',
 ]
 
@@ -118,6 +121,8 @@ def run(ctx):
     run_programs(ctx, progs, OSETS[:2], 'generated')
     folding(ctx)
     hoist_placement_correspondence(ctx, lits + progs[:ctx.scale(200, 2000)])
+    from props import c06_collect
+    c06_collect.hoist_collect_correspondence(ctx, lits + c06_collect.collect_programs() + progs[:ctx.scale(300, 3000)])
     # T01.14 / T01.15 (behaviour is preserved by hoisting): the composed Lean model against minify(), with the side conditions
     # evaluated on the witness read off the real output
     from props import c01
